@@ -255,14 +255,15 @@ def _main_child(case):
                 if cwd in ("/",) or not os.path.isdir(cwd):
                     cwd = os.path.join(d, "work")
                 cfg = os.path.relpath(cfg, cwd)
-        args = [src, "--output-dir", os.path.join(d, "out"), "--accelerator-config", case["acc"], "--config", cfg, "--system-config", case["sys"],
-                "--memory-mode", case["mem"], "--verbose-config"] + case.get("extra", [])
+        args = [src, "--output-dir", os.path.join(d, "out"), "--accelerator-config", case["acc"]] + (["--config", cfg] if cfg is not None else [])
+        args += (["--system-config", case["sys"]] if case["sys"] is not None else []) + (["--memory-mode", case["mem"]] if case["mem"] is not None else [])
+        args += ["--verbose-config"] + case.get("extra", [])
         os.chdir(cwd)
         import contextlib
         import io
 
         status = vela.main(args)
-        return dict(status=status)
+        return dict(status=status, written=os.path.isdir(os.path.join(d, "out")) and any(f.endswith(".tflite") for f in os.listdir(os.path.join(d, "out"))))
     finally:
         os.chdir("/")
         shutil.rmtree(d, ignore_errors=True)
@@ -282,6 +283,12 @@ def main_cases():
         for cfg in ("USERABS", "USERREL"):
             for extra, cli in (([], None), (["--arena-cache-size", "65536"], 65536)):
                 out.append(dict(acc="ethos-u55-128", sys="Ethos_U55_High_End_Embedded", cwd=cwd, config=cfg, mem="Shared_Sram", extra=extra, file_size=7777, cli=cli, clock=123e6))
+    # named sections exist only in configuration files: a name given without --config (from any cwd, also one that holds an Arm/vela.ini) selects
+    # nothing and has to be rejected - never silently replaced by the built-in defaults
+    for acc, sysc, mem in (("ethos-u55-128", "Ethos_U55_High_End_Embedded", "Shared_Sram"), ("ethos-u65-256", "Ethos_U65_High_End", "Dedicated_Sram")):
+        for cwd in (core.REPO, "decoy"):
+            for s_, m_ in ((sysc, mem), (sysc, None), (None, mem), (sysc, "internal-default"), ("internal-default", mem)):
+                out.append(dict(acc=acc, sys=s_, cwd=cwd, config=None, mem=m_, extra=[], file_size=None, cli=None, expect_reject=True))
     return out
 
 
@@ -290,6 +297,11 @@ def judge_main(case, res, text):
 
     if res[0] != "ok":
         return "main-crash", "vela.main raised/died: %s" % (res[:3],)
+    if case.get("expect_reject"):
+        if res[1]["status"] == 0 or res[1].get("written"):
+            return "main-named-without-file", "--system-config %s --memory-mode %s without --config: no file defines these sections, yet the compilation returned %s and %s an output network" % (
+                case["sys"], case["mem"], res[1]["status"], "wrote" if res[1].get("written") else "did not write")
+        return None
     if res[1]["status"] != 0:
         return "main-rejected", "bundled configuration %s not usable from cwd=%s (status %s): %s" % (case["config"], case["cwd"], res[1]["status"], text.strip().splitlines()[-1][:160] if text.strip() else "")
     m = re.search(r"arena_cache_size = (-?\d+) from (.*)", text)
